@@ -11,6 +11,7 @@ RMAXEventListener (harness/impl/c17_impl.py) ->
   (c) an independent Fraction oracle of the property's clauses (from the experience alone), used to
       exhibit a concrete failing clause when (a) rejects.
 """
+import math
 import os
 from fractions import Fraction as F
 import vlib
@@ -423,7 +424,7 @@ def run(ctx):
                 "string_action_labels": 0, "multi_action": 0,
                 "reused_object_second_trainings": 0, "reused_with_different_table_size": 0,
                 "slow_decay_family": 0, "slow_decay_family_closed_known_cycle_decayed": 0,
-                "mirror_skipped_slow_decay_family": 0,
+                "mirror_skipped_slow_decay_family": 0, "mirror_skipped_estimated_cost": 0,
                 "policy_queries_at_states_outside_q": 0, "default_listener_reruns": 0,
                 "first_result_read_after_second_training": 0, "reused_on_different_mdp_of_same_table_size": 0,
                 "reused_same_mdp_object": 0, "state_list_order_differs_from_id_order": 0,
@@ -459,7 +460,13 @@ def run(ctx):
             coqlist(nmat(r2) for r2 in res["transitions"]),
             qmat(res["Q"]), qmat(res["pi"]), q(slack), q(tol + slack), q(F(1, 10 ** 12))))
         meta.append(("chk", u))
-        if view.get("mirror", True):
+        # the exact mirror is run "if cheap enough": every inner loop needs about ln(scale/tol)/-ln(gamma)
+        # sweeps and the exact rationals grow with every sweep (one tol=1e-9, gamma=7/8, m=5 case took 120 s);
+        # beyond 150 estimated sweeps per loop only the certificate judges the run (counted below)
+        est_sweeps = math.log(float(scale / tol)) / -math.log(float(g)) if g > 0 else 1.0
+        if view.get("mirror", True) and est_sweeps > 150:
+            counters["mirror_skipped_estimated_cost"] += 1
+        elif view.get("mirror", True):
             terms.append("mir %s %s %s %s %s" % (head, q(tol), coqlist(step_term(st) for st in exp),
                                                 qmat(res["Q"]), q(mslack)))
             meta.append(("mir", u))
@@ -596,7 +603,8 @@ def run(ctx):
                 "(episode_rewards and Q must equal the recorded run).  SLOW-DECAY (about 8%%): 1-2 state zero-reward "
                 "cycle left with probability 1/8 or 1/16 to an absorbing state (the only positive reward on the exit), gamma in {63/64,127/128,255/256,1023/1024}, m in {1,2}, tolerance 1e-5: "
                 "when the first m samples of all cycle pairs stay in the cycle, value iteration needs thousands of sweeps; for this family ONLY the certificate (valid steps, tallies, upper bound, "
-                "unknown pairs, empirical Bellman residual, policy) is evaluated in Coq, the exact mirror is skipped as too slow.  "
+                "unknown pairs, empirical Bellman residual, policy) is evaluated in Coq, the exact mirror is skipped as too slow; the mirror is also skipped (certificate only) for the few MAIN cases "
+                "whose estimated sweeps per inner loop ln(scale/tol)/-ln(gamma) exceed 150 (tol 1e-9 or rewards x 2^20 with gamma 7/8).  "
                 "distinct = structural hash of (case, training); non-trivial = at least one state-action pair reached the threshold (value iteration ran)" % (5 if tier == "quick" else 6),
         "samples": [{"case": cases[0], "impl": impl[0]}] if cases else [],
         "cases": len(cases), "cases_run": n_ok, "trainings_judged": len(units),
